@@ -11,7 +11,9 @@ from fparser.two.utils import walk, Base
 from fparser.two import C99Preprocessor as CPP
 
 # (kind, text builder from a 3-char symbolic identifier `x`, expected printed form)
-KINDS = ["if", "ifdef", "ifndef", "elif", "else", "endif", "include", "define", "define_fn", "undef", "line", "marker", "error", "warning", "null", "cont", "cont3"]
+KINDS = ["if", "ifdef", "ifndef", "elif", "else", "endif", "include", "define", "define_fn", "undef", "line", "marker", "error", "warning", "null", "cont", "cont3", "else_trail", "endif_trail", "error_str", "define_str"]
+# kinds whose payload is free text: symbolic printable characters (quotes, ';', '/', '*' ... included)
+TEXT_KINDS = ("else_trail", "endif_trail", "error_str", "define_str")
 
 
 def directive(kind, x):
@@ -47,6 +49,14 @@ def directive(kind, x):
         return "#", "#"
     if kind == "cont":
         return "#define " + x + " 1 + \\\n   2", None
+    if kind == "else_trail":
+        return "#else /* " + x + " */", "#else /* " + x + " */"
+    if kind == "endif_trail":
+        return "#endif // " + x, "#endif // " + x
+    if kind == "error_str":
+        return '#error "' + x + ' here"', '#error "' + x + ' here"'
+    if kind == "define_str":
+        return '#define MSG "a' + x + 'b"', '#define MSG "a' + x + 'b"'
     if kind == "cont3":
         return "#define " + x + " 1 + \\\n   2 + \\\n   3", None
     raise ValueError(kind)
@@ -127,7 +137,14 @@ def cpp_prog(ctx):
     C.reset()
     lines = _lines(p["prog"])
     canon = "\n".join(lines) + "\n"
-    x = G.fresh_name(ctx, "x", 3)
+    if p["kind"] in TEXT_KINDS:
+        x = ctx.chars("x", 2, "print")
+        G.require(ctx, x.rstrip(" ")[-1:] != "\\")          # a trailing backslash would continue the line
+        tagsemi = " [';' in a directive]" if (";" in x) else ""
+        G.require(ctx, api.conj([ch != '"' for ch in x]))
+    else:
+        x = G.fresh_name(ctx, "x", 3)
+        tagsemi = ""
     ins = [(p["at"], p["kind"], x)]
     if p["second"] is not None:
         ins.append((p["second"][0], p["second"][1], "SECOND"))
@@ -155,27 +172,30 @@ def cpp_prog(ctx):
             a, b = lines[at - 1].strip().split(" "), lines[at].strip().split(" ")
             if a[0] == "do" and b[0] == "do" and len(a) > 1 and len(b) > 1 and a[1] == b[1] and a[1][:1].isdigit():
                 tag = " [directive between the DO statements of a shared-label DO nest]"
+    tag += tagsemi
     ctx.check(r1[0] == "ok", "program with preprocessor directives rejected (" + r1[0] + ")" + tag)
     if r1[0] != "ok":
         return
     t = r1[1]
     exact = C.same_shape(_strip_shape(r0[1]), _strip_shape(t))
     if not ctx.holds(exact) and ctx.holds(C.same_shape(_strip_shape(r0[1], True), _strip_shape(t, True))):
-        ctx.check(exact, "preprocessor directives change the parse of the Fortran [directive wrapped in extra Specification_Part / Implicit_Part nodes]")
+        ctx.check(exact, "preprocessor directives change the parse of the Fortran [directive wrapped in extra Specification_Part / Implicit_Part nodes]" + tagsemi)
     else:
-        ctx.check(exact, "preprocessor directives change the parse of the Fortran")
+        ctx.check(exact, "preprocessor directives change the parse of the Fortran" + tagsemi)
     nodes = _top_cpp(t)
     ctx.observe("ncpp", len(nodes))
-    ctx.check(len(nodes) == len(expect), "tree holds %s directive nodes than lines were inserted" % ("more" if len(nodes) > len(expect) else "fewer"))
+    ctx.check(len(nodes) == len(expect), "tree holds %s directive nodes than lines were inserted" % ("more" if len(nodes) > len(expect) else "fewer") + tagsemi)
     s1 = str(t)
     ctx.observe("s1", s1)
     if len(nodes) == len(expect):
         for n, e in zip(nodes, expect):
             if e[2] is not None:
-                got = str(n)
-                ctx.check((got == e[2]) if len(got) == len(e[2]) else False, "directive content or order changed (%s)" % e[0])
+                got = str(n).rstrip(" ")
+                want = e[2].rstrip(" ")
+                ctx.check((got == want) if len(got) == len(want) else False, "directive content or order changed (%s)" % e[0] + tagsemi)
     outl = [l.strip(" ") for l in s1.split("\n")]
     for e in expect:
         if e[2] is not None:
-            hits = [k for k, l in enumerate(outl) if len(l) == len(e[2]) and l == e[2]]
-            ctx.check(len(hits) >= 1, "directive missing from the regenerated text (%s)" % e[0])
+            want = e[2].strip(" ")
+            hits = [k for k, l in enumerate(outl) if len(l) == len(want) and l == want]
+            ctx.check(len(hits) >= 1, "directive missing from the regenerated text (%s)" % e[0] + tagsemi)
